@@ -315,6 +315,19 @@ def changed_records(pre, post):
     return ch
 
 
+NOTSEEN = object()
+
+
+def first_reservation(sess, lid, before):
+    """whitelisted buyer of listing lid as first stored (NOTSEEN if it existed from the start)"""
+    for st in sess.steps[:before]:
+        if by_id(st["pre"], lid) is None:
+            l = by_id(st["post"], lid)
+            if l is not None:
+                return l["wl"]
+    return NOTSEEN
+
+
 def m_c04(ctx, st):
     op = st["op"]
     a = actor(op)
@@ -332,7 +345,11 @@ def m_c04(ctx, st):
             allowed |= {("listing", (pl["kowner"], lid)), ("listing", (a, lid)), ("bucket", (a, bid)), ("bucket", (pl["kowner"], bid))}
             # only a *valid* purchase may take a listing from its owner: finalized and unsold before
             expired = pl["exp"] is not None and int(pl["exp"]) < int(st["pre"]["time_ns"])
-            reserved = pl["wl"] is not None and pl["wl"] != a
+            # the reservation is the one the listing was created with: no message can change it
+            wl0 = first_reservation(ctx.s, lid, st["i"])
+            wl_now = pl["wl"] if wl0 is NOTSEEN else wl0
+            reserved = wl_now is not None and wl_now != a
+            pl = dict(pl, wl=wl_now)
             if pl["kowner"] != a and (pl["status"] != "FinalizedReady" or pl["claimant"] is not None or expired or reserved):
                 ctx.add("C04", "foreign_record_taken_by_invalid_purchase", st["i"],
                         "%s bought listing %d of %s although it was %s / claimant %r%s%s" % (a, lid, pl["kowner"], pl["status"], pl["claimant"],
